@@ -1863,7 +1863,32 @@ pub fn oracle(c: &Case) -> Report {
     if r.field == 0 { go!(bb) } else { go!(kb) }
 }
 
-fn shape_strategy() -> impl Strategy<Value = Shape> {
+/// Digest of the verifier circuit built for a proof shape (operation list in order, witness
+/// count, public rows); used by C18 to compare independent compilations of one verifier circuit.
+pub fn verifier_circuit_digest(shape: &Shape, seed_a: u64, seed_b: u64) -> Result<(u64, usize, Vec<String>), String> {
+    use std::hash::{Hash, Hasher};
+    let r = resolve(shape);
+    macro_rules! go {
+        ($m:ident) => {{
+            match $m::prepare(&r, seed_a, seed_b) {
+                Ok(prep) => {
+                    let mut hs = std::collections::hash_map::DefaultHasher::new();
+                    for op in &prep.circuit.ops {
+                        crate::e1::fmt_op::<$m::C>(op).hash(&mut hs);
+                    }
+                    prep.circuit.witness_count.hash(&mut hs);
+                    prep.circuit.public_rows.iter().for_each(|w| w.0.hash(&mut hs));
+                    prep.circuit.private_input_rows.iter().for_each(|w| w.0.hash(&mut hs));
+                    Ok((hs.finish(), prep.circuit.ops.len(), shape_classes(&r, <$m::C as Fc>::NAME)))
+                }
+                Err((sig, msg)) => Err(format!("{sig}: {msg}")),
+            }
+        }};
+    }
+    if r.field == 0 { go!(bb) } else { go!(kb) }
+}
+
+pub fn shape_strategy() -> impl Strategy<Value = Shape> {
     (
         (0u8..8, 0u8..2, 0u8..5, 0u8..5, 0u8..3),
         prop::collection::vec(0u8..4, 1..=4),
